@@ -85,9 +85,11 @@ pub fn generate(rng: &mut Rng, opts: &GenOpts, tag: &str) -> Value {
     let grid: i64 = if ties { *rng.pick(&[600, 900, 1800]) } else { 60 };
 
     // ---------------------------------------------------------------- locations
+    let big = opts.max_departures > 20;
     let nloc = match p {
         Profile::Degenerate => rng.usize(1, 2),
         Profile::Ties => rng.usize(1, 3),
+        _ if big => rng.usize(3, 9),
         _ => rng.usize(1, 5),
     };
     let locs: Vec<String> = (0..nloc).map(|i| format!("{}.L{}", tag, i)).collect();
@@ -96,6 +98,7 @@ pub fn generate(rng: &mut Rng, opts: &GenOpts, tag: &str) -> Value {
     let ntypes = match p {
         Profile::Degenerate => rng.usize(1, 2),
         _ if opts.rotation_rich => rng.usize(1, 2),
+        _ if big => rng.usize(1, 4),
         _ => rng.usize(1, 3),
     };
     let mut types = Vec::new();
@@ -481,7 +484,9 @@ pub fn generate(rng: &mut Rng, opts: &GenOpts, tag: &str) -> Value {
             0 | 3 | 5 => None,
             1 if p == Profile::Depots && rng.chance(1, 3) => Some(Vec::new()),
             _ => {
-                let nd = rng.usize(1, 4);
+                let nd = if p == Profile::Depots { rng.usize(1, 6) } else { rng.usize(1, 4) };
+                // several depots may share a location
+                let shared_loc = if rng.chance(1, 3) { Some(rng.usize(0, nloc - 1)) } else { None };
                 let mut v = Vec::new();
                 let generous = (total_need + total_tracks + 2) * 2;
                 for d in 0..nd {
@@ -521,7 +526,7 @@ pub fn generate(rng: &mut Rng, opts: &GenOpts, tag: &str) -> Value {
                     let capacity = if opts.decoupled_depots { sum_type_caps } else { capacity };
                     v.push(json!({
                         "id": format!("{}.P{}", tag, d),
-                        "location": locs[rng.usize(0, nloc - 1)],
+                        "location": locs[match shared_loc { Some(l) if rng.chance(2, 3) => l, _ => rng.usize(0, nloc - 1) }],
                         "capacity": capacity,
                         "allowedTypes": allowed,
                     }));
